@@ -236,4 +236,80 @@ theorem readLebGo_writeLeb : LebGoSpec := by
   rw [h9, decode_packGo n 0 0 _ (by decide) (by omega) hn]
   simp
 
+/-! ### failure and bounds of the read loop, on arbitrary input -/
+
+theorem readLebGoLoop_none_of_all_cont (l : Bytes) (acc : UInt64) (i : Nat)
+    (h : ∀ b ∈ l, 128 ≤ b.toNat) : readLebGoLoop l acc i = none := by
+  induction l generalizing acc i with
+  | nil => rfl
+  | cons b l ih =>
+    have hb : (b &&& 0x80 == 0) = false := by
+      rw [u8_flag]; simpa using h b (by simp)
+    simp only [readLebGoLoop, hb, Bool.false_eq_true, if_false]
+    exact ih _ _ (fun c hc => h c (by simp [hc]))
+
+/-- input that ends before a terminating byte (top bit clear) is rejected -/
+theorem readLebGo_none_of_all_cont (l : Bytes) (h : ∀ b ∈ l, 128 ≤ b.toNat) :
+    readLebGo l = none :=
+  readLebGoLoop_none_of_all_cont l 0 0 h
+
+/-- the same with the flag written as in the Go source -/
+theorem readLebGo_none_of_all_cont' (l : Bytes) (h : ∀ b ∈ l, b &&& 0x80 ≠ 0) :
+    readLebGo l = none := by
+  apply readLebGo_none_of_all_cont
+  intro b hb
+  have := h b hb
+  have hf := u8_flag b
+  apply Nat.le_of_not_lt; intro hlt
+  rw [decide_eq_true hlt] at hf
+  exact this (by simpa using hf)
+
+theorem readLebGoLoop_le_length (l : Bytes) (acc : UInt64) (i : Nat) (v : UInt64) (k : Nat)
+    (h : readLebGoLoop l acc i = some (v, k)) : i < k ∧ k ≤ i + l.length := by
+  induction l generalizing acc i with
+  | nil => simp [readLebGoLoop] at h
+  | cons b l ih =>
+    simp only [readLebGoLoop] at h
+    split at h
+    · simp only [Option.some.injEq, Prod.mk.injEq] at h
+      simp only [List.length_cons]; omega
+    · have := ih _ _ h
+      simp only [List.length_cons]; omega
+
+/-- ReadLeb128 consumes at least one byte and never more than the input holds -/
+theorem readLebGo_le_length (l : Bytes) (v : UInt64) (k : Nat)
+    (h : readLebGo l = some (v, k)) : 0 < k ∧ k ≤ l.length := by
+  have := readLebGoLoop_le_length l 0 0 v k h
+  omega
+
+/-- the byte that stops ReadLeb128 is the `k`-th one, and it is the first with the top bit clear -/
+theorem readLebGoLoop_stop (l : Bytes) (acc : UInt64) (i : Nat) (v : UInt64) (k : Nat)
+    (h : readLebGoLoop l acc i = some (v, k)) :
+    ∃ pre b post, l = pre ++ b :: post ∧ i + pre.length + 1 = k ∧ b.toNat < 128 ∧
+      ∀ c ∈ pre, 128 ≤ c.toNat := by
+  induction l generalizing acc i with
+  | nil => simp [readLebGoLoop] at h
+  | cons b l ih =>
+    simp only [readLebGoLoop] at h
+    split at h
+    · rename_i hb
+      simp only [Option.some.injEq, Prod.mk.injEq] at h
+      rw [u8_flag] at hb
+      exact ⟨[], b, l, rfl, by simp; omega, by simpa using hb, by simp⟩
+    · rename_i hb
+      rw [u8_flag] at hb
+      obtain ⟨pre, c, post, rfl, hk, hc, hpre⟩ := ih _ _ h
+      refine ⟨b :: pre, c, post, rfl, by simp only [List.length_cons]; omega, hc, ?_⟩
+      intro d hd
+      rcases List.mem_cons.mp hd with rfl | hd
+      · simpa using hb
+      · exact hpre d hd
+
+/-! ### the bound 2^56 in `LebGoSpec` is sharp
+
+    `writeLeb (2^56)` is nine bytes; the first one (the least significant group) is shifted out of
+    the 64-bit accumulator, so ReadLeb128 reports 2^49 (and still "9 bytes read"). -/
+theorem readLebGo_writeLeb_2_56 : readLebGo (writeLeb (2 ^ 56)) = some ((2 ^ 49 : Nat).toUInt64, 9) := by
+  decide +kernel
+
 end Rtp.Model
